@@ -40,7 +40,8 @@ vars == <<stk, fin, jd, fam>>
 Fam(ml, mo, ms, v, n, f, t, g, e, w, m, c, s) ==
   [ML |-> ml, MO |-> mo, MS |-> ms, V |-> v, N |-> n, F |-> f, T |-> t, G |-> g, E |-> e, W |-> w, M |-> m, C |-> c, S |-> s,
    VO |-> FALSE,      \* VO: derive only trees that follow the documented rules (deep valid trees by random walks)
-   PK |-> FALSE]      \* PK: do not build on top of a subtree that violates a rule (one violation per tree, at its root)
+   PK |-> FALSE,      \* PK: do not build on top of a subtree that violates a rule (one violation per tree, at its root)
+   X |-> {}]          \* X: version 1 leaves offered: "$" / "DELTA" (the two dirac symbols), "cix" (number with an index)
 MaxLeaves == Fams[fam].ML
 MaxOps == Fams[fam].MO
 MaxStack == Fams[fam].MS
@@ -56,6 +57,7 @@ Cors == Fams[fam].C
 Styles == Fams[fam].S
 ValidOnly == Fams[fam].VO
 PruneKids == Fams[fam].PK
+V1Extras == Fams[fam].X
 
 \* ================================================================== part 1: the algorithm
 XAt(a, idx) == a.v[Flat(idx, a.sh) + 1]
@@ -125,6 +127,7 @@ RECURSIVE P(_)
 P(e) ==
   LET R(p) == P(e.kids[p]) IN
   CASE e.op = "num" -> POk(XScalar(T2(Norm(NumTab[e.nm][1], NumTab[e.nm][2]))), <<>>, {})
+    [] e.op \in {"eye", "cix"} -> PFail("v1-syntax")            \* no such variable / no such number in version 2
     [] e.op = "var" ->                                            \* parse_item, variable branch
          IF e.nm \notin DOMAIN VarTab THEN PFail("unknown-name")
          ELSE IF Len(VarTab[e.nm].sh) # Len(e.ix) THEN PFail("index-count")
@@ -193,7 +196,7 @@ NoArr == [sh |-> <<>>, v |-> <<>>]
 RECURSIVE Ops(_)
 Ops(e) == {e.op} \cup (IF e.op \in {"call", "var", "num"} THEN {e.nm} ELSE {}) \cup UNION {Ops(e.kids[p]) : p \in 1..Len(e.kids)}
 NoCase == [t |-> <<>>, ok |-> "none", why |-> "", guess |-> <<>>, fr |-> <<>>, arr |-> NoArr, rev |-> NoArr, ops |-> {}, no |-> 0, st |-> 0, fam |-> 0,
-           pix |-> <<>>, psm |-> {}]
+           pix |-> <<>>, psm |-> {}, ok1 |-> "same", why1 |-> "", fr1 |-> <<>>, arr1 |-> NoArr, rev1 |-> NoArr]
 NoJd == [c |-> FALSE, verdict |-> TRUE, free |-> TRUE, meaning |-> TRUE, case |-> NoCase]
 Judge(ent) ==
   LET e == ent.e
@@ -208,6 +211,12 @@ Judge(ent) ==
       sorted == IF r.ix = fr THEN m ELSE XTranspose(m, [q \in 1..Len(fr) |-> PosIn(r.ix, fr[q]) - 1])
       rev == IF Len(fr) <= 1 THEN sorted ELSE XTranspose(m, [q \in 1..Len(fr) |-> PosIn(r.ix, Reverse(fr)[q]) - 1])
       usable == valid /\ r.ok /\ sameix
+      \* version 1 reading of a tree with dirac / indexed numbers: the inferred lengths must be uniquely deducible
+      unk == Unk(e)
+      cons == IF unk = {} THEN {} ELSE Consistent(e)
+      one == Cardinality(cons) = 1
+      n1 == ChkG(e, CHOOSE U \in cons : TRUE, TRUE)
+      fr1 == FreeSeq(n1.cnt)
   IN [c |-> TRUE,
       verdict |-> valid = r.ok,
       free |-> (valid /\ r.ok) => /\ sameix
@@ -217,18 +226,28 @@ Judge(ent) ==
                             /\ \A k \in 1..Len(m.v) : m.v[k] = r.a.v[k] \/ T2Bad(m.v[k]) \/ T2Bad(r.a.v[k]),
       case |-> [t |-> Render(e, 0),
                 ok |-> IF ~valid THEN "bad" ELSE IF IntNegPow(n) THEN "skip" ELSE "ok",
-                why |-> n.why, guess |-> fr,
+                why |-> n.why,
+                \* for strings that must be refused: the letters used an odd number of times (the axes to ask version 1 for,
+                \* so that a wrongly accepted string is not refused for the requested axes instead)
+                guess |-> LET t == Render(e, 0) IN SelectSeq(LetterOrder, LAMBDA l : Cardinality({p \in 1..Len(t) : t[p] = l}) % 2 = 1),
                 fr |-> IF valid THEN fr ELSE <<>>,
                 arr |-> IF usable THEN ProjArr(sorted) ELSE NoArr,
                 rev |-> IF usable THEN ProjArr(rev) ELSE NoArr,
                 ops |-> Ops(e), no |-> ent.no, st |-> 0, fam |-> 0,
                 \* what the algorithm returns besides the array: its index string (order of the first term) and summed set
-                pix |-> IF usable THEN r.ix ELSE <<>>, psm |-> IF usable THEN r.sm ELSE {}]]
+                pix |-> IF usable THEN r.ix ELSE <<>>, psm |-> IF usable THEN r.sm ELSE {},
+                ok1 |-> IF unk = {} THEN "same" ELSE IF ~one THEN "bad" ELSE IF IntNegPow(n1) THEN "skip" ELSE "ok",
+                why1 |-> IF unk = {} \/ one THEN "" ELSE IF cons = {} THEN "no-consistent-lengths" ELSE "undetermined-length",
+                fr1 |-> IF unk # {} /\ one THEN fr1 ELSE <<>>,
+                arr1 |-> IF unk # {} /\ one THEN ProjArr(ArrOf(n1, fr1)) ELSE NoArr,
+                rev1 |-> IF unk # {} /\ one THEN ProjArr(ArrOf(n1, Reverse(fr1))) ELSE NoArr]]
 \* ================================================================== part 2: the derivation machine
+\* follows the rules (shared reading), or - with version 1 leaves - some assignment of the inferred lengths does
+Plausible(e) == IF V1Extras = {} THEN Chk(e).why = "" ELSE IF Unk(e) = {} THEN Chk(e).why = "" ELSE Consistent(e) # {}
 \* stack entry: tree, syntactic rank (1 item, 2 power, 3 term, 4 fraction, 5 sum), leaves, productions
 \* v: the tree follows the rules (not computed where nothing depends on it: every candidate successor of a random walk would pay)
 Ent(e, r, nl, no) == [e |-> e, r |-> r, nl |-> nl, no |-> no,
-                      v |-> IF ValidOnly \/ PruneKids \/ ~Lazy THEN TLCEval(Chk(e).why = "") ELSE TRUE]
+                      v |-> IF ValidOnly \/ PruneKids \/ ~Lazy THEN TLCEval(Plausible(e)) ELSE TRUE]
 L == Len(stk)
 Top == stk[L]
 Sec == stk[L - 1]
@@ -258,6 +277,14 @@ PBadVar == /\ CanLeaf
                        /\ \E ix \in [1..(Len(VarTab[nm].sh) + d) -> (Toks \cap {"i", "j"})] : Push(Ent(VarNd(nm, ix), 1, 1, 0))
               \/ /\ "index-symbol" \in Muts
                  /\ \E nm \in VarSet : Len(VarTab[nm].sh) = 1 /\ Push(Ent(VarNd(nm, <<"$">>), 1, 1, 0))
+           /\ UNCHANGED fin
+\* version 1 leaves: the dirac with two letters, a number with one index; the leaf id names the inferred length
+Digit1(k) == IF k = 1 THEN "1" ELSE IF k = 2 THEN "2" ELSE IF k = 3 THEN "3" ELSE "4"
+PV1Leaf == /\ CanLeaf
+           /\ \/ \E sym \in {"DELTA", "$"} \cap V1Extras : \E ix \in [1..2 -> (Toks \cap AllLetters)] :
+                       Push(Ent(V1Leaf("eye", sym, ix, Digit1(NL + 1)), 1, 1, 0))
+              \/ /\ "cix" \in V1Extras
+                 /\ \E t \in NumSet : \E l \in (Toks \cap AllLetters) : Push(Ent(V1Leaf("cix", t, <<l>>, Digit1(NL + 1)), 1, 1, 0))
            /\ UNCHANGED fin
 PWrap == /\ CanOp /\ L >= 1 /\ Grow1
          /\ \E w \in Wraps : Rep1(Ent(Nd(w, "", <<>>, <<Top.e>>, <<>>), 1, Top.nl, Top.no + 1))
@@ -337,7 +364,8 @@ Corrupt(kind, t, p) ==
 Refinish(j, e, f) ==
   IF f.ck = "" THEN [j EXCEPT !.case.t = RenderTop(e, f.st), !.case.st = f.st]
   ELSE [j EXCEPT !.case.t = Corrupt(f.ck, Render(e, 0), f.cp), !.case.ok = "bad", !.case.why = f.ck,
-                 !.case.fr = <<>>, !.case.arr = NoArr, !.case.rev = NoArr, !.case.pix = <<>>, !.case.psm = {}]
+                 !.case.fr = <<>>, !.case.arr = NoArr, !.case.rev = NoArr, !.case.pix = <<>>, !.case.psm = {},
+                 !.case.ok1 = IF j.case.ok1 = "same" THEN "same" ELSE "bad", !.case.why1 = f.ck, !.case.fr1 = <<>>, !.case.arr1 = NoArr, !.case.rev1 = NoArr]
 
 \* random walks: only the first and the last position of a kind (keeps finishing from dominating the choice)
 FewIfLazy(S) == IF Lazy /\ S # {} THEN {CHOOSE p \in S : \A q \in S : p <= q, CHOOSE p \in S : \A q \in S : p >= q} ELSE S
@@ -348,7 +376,7 @@ PFinish == /\ Open /\ L = 1
 
 Init == stk = <<>> /\ fin = [done |-> FALSE, st |-> 0, ck |-> "", cp |-> 0] /\ jd = NoJd /\ fam \in 1..Len(Fams)
 \* the judged machine: jd is a function of the new stack and finishing record (one evaluation per step)
-Production == PNum \/ PVar \/ PBadVar \/ PWrap \/ PCall \/ PBadCall \/ PPowInt \/ PPowScoped \/ PTerm \/ PFrac \/ PNeg \/ PSum
+Production == PNum \/ PVar \/ PBadVar \/ PV1Leaf \/ PWrap \/ PCall \/ PBadCall \/ PPowInt \/ PPowScoped \/ PTerm \/ PFrac \/ PNeg \/ PSum
 Judgeable(s) == Len(s) = 1 /\ s[1].no >= EmitMin
 Next == /\ \/ ~Lazy /\ Production /\ jd' = IF Judgeable(stk') THEN Judge(stk'[1]) ELSE NoJd
            \/ Lazy /\ (Judgeable(stk) => jd.c) /\ Production /\ jd' = NoJd
@@ -361,6 +389,7 @@ Spec == Init /\ [][Next]_vars
 ANum == PNum /\ UNCHANGED <<jd, fam>>
 AVar == PVar /\ UNCHANGED <<jd, fam>>
 ABadVar == PBadVar /\ UNCHANGED <<jd, fam>>
+AV1Leaf == PV1Leaf /\ UNCHANGED <<jd, fam>>
 AWrap == PWrap /\ UNCHANGED <<jd, fam>>
 ACall == PCall /\ UNCHANGED <<jd, fam>>
 ABadCall == PBadCall /\ UNCHANGED <<jd, fam>>
@@ -371,7 +400,7 @@ AFrac == PFrac /\ UNCHANGED <<jd, fam>>
 ANeg == PNeg /\ UNCHANGED <<jd, fam>>
 ASum == PSum /\ UNCHANGED <<jd, fam>>
 AFinish == PFinish /\ UNCHANGED <<jd, fam>>
-BareNext == ANum \/ AVar \/ ABadVar \/ AWrap \/ ACall \/ ABadCall \/ APowInt \/ APowScoped \/ ATerm \/ AFrac \/ ANeg \/ ASum \/ AFinish
+BareNext == ANum \/ AVar \/ ABadVar \/ AV1Leaf \/ AWrap \/ ACall \/ ABadCall \/ APowInt \/ APowScoped \/ ATerm \/ AFrac \/ ANeg \/ ASum \/ AFinish
 BareSpec == Init /\ [][BareNext]_vars
 
 \* ================================================================== the property
